@@ -193,6 +193,8 @@ pub fn size_of(group: u8, var: u8) -> Option<SizeKind> {
     use SizeKind::*;
     let k = match (group, var) {
         (0, 0) => return None,
+        // non-specific "all attributes" request: never carries data
+        (0, 254) => NoData,
         (0, _) => Attr,
         (1, 0) | (2, 0) | (3, 0) | (4, 0) | (10, 0) | (11, 0) | (20, 0) | (21, 0) | (22, 0)
         | (23, 0) | (30, 0) | (31, 0) | (32, 0) | (33, 0) | (34, 0) | (40, 0) | (42, 0)
@@ -362,6 +364,12 @@ impl<'a> Cur<'a> {
 /// Walk the object headers of a fragment. `no_data` = READ request semantics: range/count
 /// headers carry no object data.
 pub fn walk(objects: &[u8], no_data: bool) -> Result<Vec<ObjHeader>, WalkError> {
+    walk_opts(objects, no_data, false)
+}
+
+/// `count_only_events`: count qualifiers (0x07 / 0x08) on event groups are "limited count"
+/// headers without object data in any function code
+pub fn walk_opts(objects: &[u8], no_data: bool, count_only_events: bool) -> Result<Vec<ObjHeader>, WalkError> {
     let mut c = Cur { b: objects, pos: 0 };
     let mut out = Vec::new();
     while c.pos < objects.len() {
@@ -391,9 +399,7 @@ pub fn walk(objects: &[u8], no_data: bool) -> Result<Vec<ObjHeader>, WalkError> 
                             }
                         }
                         SizeKind::VarSized => {
-                            if var == 0 {
-                                return Err(WalkError::BadQualifierForObject(group, var, qual));
-                            }
+                            // variation 0 = zero-length strings (only parsed on request)
                             for i in 0..count {
                                 let d = c.take(var as usize)?;
                                 objs.push(Obj { index: Some(start + i as u32), data: d.to_vec() });
@@ -434,7 +440,8 @@ pub fn walk(objects: &[u8], no_data: bool) -> Result<Vec<ObjHeader>, WalkError> 
             0x06 => RangeSpec::All,
             0x07 | 0x08 => {
                 let count = if qual == 0x07 { c.u8()? as u32 } else { c.u16()? as u32 };
-                if !no_data {
+                let event_group = matches!(group, 2 | 4 | 11 | 13 | 22 | 23 | 32 | 33 | 42 | 43 | 111);
+                if !no_data && !(count_only_events && event_group) {
                     match kind {
                         SizeKind::Fixed(n) => {
                             for _ in 0..count {
